@@ -176,6 +176,7 @@ func vNoBytesIn(s string, lo, hi int, set string) bool {
 	}
 	return true
 }
+func vSetAddrMax(n int)            {}
 func vHasPrefixS(s, p string) bool { return len(s) >= len(p) && s[:len(p)] == p }
 func vAll(c ...bool) bool {
 	for _, x := range c {
